@@ -929,6 +929,98 @@ pub fn run(tier: &str) -> i32 {
     fold(&mut rep, s.name, &s.space(), r);
   }
 
+  // ---- in the machine: the same comparison with the scene where a guest puts it.  VRAM and OAM
+  // are written through the bus (before the display is switched on), the registers through the
+  // bus, time is delivered by MemoryAreas::run_clock_cycles, the end of the frame is read from
+  // IF bit 0 through the bus, and the presented frame is the one the real Core's LCD holds.
+  {
+    let mut cases: Vec<Case> = canon.clone();
+    let lc = stages(false).into_iter().find(|s| s.name == "lcdc").expect("lcdc family");
+    for i in (0..lc.n()).step_by(7) {
+      cases.push(lc.case(i));
+    }
+    let opts = PoolOpts { chunk: 4, bitmap_bits: 1 << 19, samples_per_child: 1, ..PoolOpts::default() };
+    let r = run_pool(
+      cases.len() as u64,
+      &opts,
+      |_| {
+        let mut rom = vec![0u8; 0x8000];
+        rom[0x100..0x150].copy_from_slice(&crate::world::header_bytes(0x00, 0x00, 0x00)[0x100..0x150]);
+        (make_worker(), crate::world::flat_core(rom))
+      },
+      |wc, i, ctx| {
+        let (w, core) = (&mut wc.0, &mut wc.1);
+        let c = &cases[i as usize];
+        if c.void || c.excluded.is_some() {
+          return;
+        }
+        ctx.count(C_CASES, 1);
+        r7::render(&w.imgs[c.img], &c.oam, &c.regs, Variant::Reference, &mut w.exp);
+        core.memory.io = crate::devices::io::IO::new();
+        core.memory.oam_dma = None;
+        let m = &mut core.memory as *mut crate::mem::MemoryAreas;
+        let wr = |a: u16, v: u8| crate::mem::memory_write_byte(m, a, v);
+        wr(0xFF40, 0x00);
+        for (k, b) in w.imgs[c.img].iter().enumerate().take(0x2000) {
+          wr(0x8000 + k as u16, *b);
+        }
+        for (k, b) in c.oam.iter().enumerate() {
+          wr(0xFE00 + k as u16, *b);
+        }
+        wr(0xFF42, c.regs.scy);
+        wr(0xFF43, c.regs.scx);
+        wr(0xFF4A, c.regs.wy);
+        wr(0xFF4B, c.regs.wx);
+        wr(0xFF47, c.regs.bgp);
+        wr(0xFF48, c.regs.obp0);
+        wr(0xFF49, c.regs.obp1);
+        wr(0xFF41, 0x00);
+        wr(0xFFFF, 0x00);
+        wr(0xFF40, c.regs.lcdc);
+        wr(0xFF0F, 0x00);
+        // run until VBlank is requested after a visible line was seen, twice (the second
+        // presented frame is drawn entirely with the scene in place)
+        let mut presented = 0;
+        let mut seen_visible = false;
+        let mut clocks = 0usize;
+        while presented < 2 && clocks < 5 * 70224 {
+          core.memory.run_clock_cycles(ClockCycles(c.batch.max(4)));
+          clocks += c.batch.max(4);
+          let ly = crate::mem::memory_read_byte(m as *const crate::mem::MemoryAreas, 0xFF44);
+          if ly < 144 {
+            seen_visible = true;
+          }
+          if crate::mem::memory_read_byte(m as *const crate::mem::MemoryAreas, 0xFF0F) & 1 != 0 {
+            wr(0xFF0F, 0x00);
+            if seen_visible {
+              presented += 1;
+              seen_visible = false;
+            }
+          }
+        }
+        ctx.count(C_FRAMES, 1);
+        ctx.sample(|| case_json(c, "in-the-machine", i, 2));
+        if presented < 2 {
+          ctx.violation("C15 via=machine cause=no-vblank-request", || J::obj().set("case", case_json(c, "in-the-machine", i, 2)).set("expected", J::s("IF bit 0 set twice within five frame times")).set("observed", J::u(presented as u64)));
+          return;
+        }
+        let got: &[u8] = &core.memory.io.video.get_visible_buffer()[..];
+        ctx.class((15u64 << 40) | (scene_class(c).len() as u64) << 8 | (got == &w.exp[..]) as u64);
+        if let Some(d) = compare(&w.exp, got) {
+          ctx.count(C_MISMATCH, 1);
+          ctx.violation(&format!("C15 via=machine {}", scene_class(c)), || {
+            J::obj()
+              .set("case", case_json(c, "in-the-machine", i, 2).set("how", J::s("VRAM, OAM and registers written through the bus with the display off, display switched on, time delivered by MemoryAreas::run_clock_cycles, frame end read from IF, frame taken from the Core's LCD")))
+              .set("first_difference", J::obj().set("x", J::u(d.x as u64)).set("y", J::u(d.y as u64)).set("expected", J::u(d.expected as u64)).set("observed", J::u(d.observed as u64)))
+              .set("pixels_differing", J::u(d.count as u64))
+          });
+        }
+      },
+      |i, how| (format!("C15 via=machine crash={}", how), J::obj().set("case", J::u(i))),
+    );
+    fold(&mut rep, "in-the-machine", "the 13 minimal scenes and every 7th scene of the LCDC family, loaded into a real Core through the bus (VRAM, OAM, registers), time delivered by MemoryAreas::run_clock_cycles, frame end read from IF bit 0, second presented frame compared with R7", r);
+  }
+
   // evidence
   rep.evaluations = totals[C_FRAMES];
   // classes carry the stage number, so the per-stage distinct counts summed by add_stage
